@@ -595,6 +595,21 @@ J.setdefault("C04", []).append(("history", _history_hook(_c04_check)))
 J.setdefault("C04", []).append(("scale_down", _history_hook(_c04_check)))
 
 
+def _c05_check(store, step, op, memo):
+    """right after a successful quantise, whatever happened to the object before, every event lies on the grid"""
+    if op[0] not in ("OQuantise", "OQuantDefault") or op[1] >= len(store):
+        return []
+    steps = list(op[2]) if op[0] == "OQuantise" else [24, 12, 6, 16, 8, 4]
+    s_ = store[op[1]]
+    if not steps or s_._abs_stale:
+        return []
+    bad = [from_message(m) for m in s_._abs._messages if isinstance(m.time, int) and all(m.time % st for st in steps)]
+    return [f"step {step} {op[0]} {steps}: object {op[1]} holds an event off the grid: {bad[0]}"] if bad else []
+
+
+J.setdefault("C05", []).append(("history", _history_hook(_c05_check)))
+
+
 def _c14_check(store, step, op, memo):
     """a transposition must be visible through BOTH views (same events whichever view is read)"""
     if op[0] != "OTranspose":
@@ -1124,7 +1139,7 @@ def j_c15(inp):
         return None
     ss = [ops.mk_any(k, ms) for k, ms in inp]
     durs = [(abs_of(s)[-1][2] if abs_of(s) else 0) for s in ss]
-    ss[0].merge(ss[1:])
+    ops.merge_call(ss)
     out = abs_of(ss[0])
     v = []
     allm = [m for ms in seqs for m in ms]
@@ -1136,7 +1151,7 @@ def j_c15(inp):
     # order independence of (pitch, onset, duration, channel)
     perm = list(reversed(inp))
     ps = [ops.mk_any(k, ms) for k, ms in perm]
-    ps[0].merge(ps[1:])
+    ops.merge_call(ps)
     strip = lambda l: sorted((c, p, on, dd) for c, p, on, dd, _ in (roll(l) or []))
     if strip(out) != strip(abs_of(ps[0])):
         v.append("notes depend on the order of merging")
@@ -1503,6 +1518,7 @@ def j_c01(inp):
     return v
 
 
+@judge_for("C03", "tok_stateful")
 @judge_for("C01", "tok_stateful")
 def j_c01_chunked(inp):
     """the round trip through the incremental entry point: the piece cut at its bar lines with Sequence.split (no Bar
@@ -1648,7 +1664,7 @@ def j_c03(inp):
 @judge_for("C19", "tok_stream")
 def j_c19(inp):
     cfg, toks = inp
-    t = ops.mk_tok(cfg)
+    t = ops.mk_tok_used(cfg, toks)
     v = []
     for imp in (False, True):
         info = t.get_info(list(toks), flag_impute_values=imp)
@@ -1739,6 +1755,17 @@ def _exhaustive_c20():
             rs = sorted(x.value for x in MusicMapping.KeyNoteMapping[r][0])
             if rs != sorted((x.value + i) % 12 for x in notes):
                 v.append(f"transpose_key({k.name},{i}): scale not shifted as a set")
+            if i in range(0, 12):        # "all integers": intervals far beyond 2^53 behave like their residue mod 12
+                for big in (2 ** 53, 12 * 2 ** 60, 10 ** 30, -(2 ** 64)):
+                    n += 1
+                    try:
+                        rb = Key.transpose_key(k, big + i)
+                    except Exception as e:
+                        v.append(f"transpose_key({k.name},{big}+{i}) raised {type(e).__name__}: {e}")
+                        continue
+                    small = Key.transpose_key(k, (big + i) % 12)
+                    if rb is None or small is None or TONIC[rb.name] != TONIC[small.name]:
+                        v.append(f"transpose_key({k.name},{big}+{i}) differs from transposing by the residue {(big + i) % 12}")
             for j in (-13, -12, -1, 0, 1, 5, 12):
                 r2 = Key.transpose_key(r, j) if r is not None else None
                 r3 = Key.transpose_key(k, i + j)
